@@ -4,6 +4,8 @@ import (
 	"bytes"
 	"encoding/json"
 	"fmt"
+	"github.com/opsidian/parsley/data"
+	"github.com/opsidian/parsley/text"
 	"os"
 	"os/exec"
 	"strings"
@@ -292,6 +294,34 @@ func c17Families() []c17Family {
 		return strings.Repeat("(", d) + "a" + strings.Repeat(")", d)
 	}
 	fams = append(fams, c17Family{scale: 0.3, name: "postfix operators behind an ordered Choice over a memoized operand, grammar object with 600 earlier parses", build: usedPostfix, input: inNested, check: anyValue})
+	// a keyword terminal that registers its word in the context every time it is tried (the registry is per context and
+	// registering is idempotent): factor -> neg ( expr ) | int | ( expr ), nested input neg(1+(neg(1+( ... ))))
+	kwArith := func() parsley.Parser {
+		kw := func(word string) parsley.Parser {
+			w := terminal.Word(nil, word, word)
+			return parser.Func(func(ctx *parsley.Context, l data.IntMap, pos parsley.Pos) (parsley.Node, data.IntSet, parsley.Error) {
+				ctx.RegisterKeywords(word)
+				return w.Parse(ctx, l, pos)
+			})
+		}
+		var expr, term, factor parser.Func
+		factor = combinator.Memoize(combinator.Any(
+			seq(kw("neg"), r('('), &expr, r(')')),
+			terminal.Integer(nil),
+			seq(r('('), &expr, r(')')),
+		))
+		term = combinator.Memoize(combinator.Any(seq(&term, r('*'), &factor), &factor))
+		expr = combinator.Memoize(combinator.Any(seq(&expr, r('+'), &term), &term))
+		return combinator.Sentence(&expr)
+	}
+	inKwArith := func(n int) string {
+		d := n / 9
+		if d < 1 {
+			d = 1
+		}
+		return strings.Repeat("neg(1+(", d) + "2" + strings.Repeat("))", d)
+	}
+	fams = append(fams, c17Family{scale: 0.6, name: "arithmetic with a keyword terminal that registers its word in the context on every attempt, nested", build: kwArith, input: inKwArith, check: anyValue})
 	// inputs that END where an operand is still expected: the left-recursive rules are asked at the end-of-input position
 	lastOperandMissing := func(in func(int) string) func(int) string {
 		return func(n int) string { s := in(n); return s[:len(s)-1] }
@@ -418,6 +448,25 @@ func c17One(res *explore.Result, fams []c17Family, fi int, n int, known map[int]
 		}
 	} else if k, ok := known[n]; ok && k != c1 {
 		return viol("call-count-not-deterministic", "two parses of the same input gave different call counts")
+	}
+	if !reused && n <= 40 {
+		// the same parse as the SECOND user of one file set (two contexts, one set — the normal multi-file set-up):
+		// the count a context reports is its own
+		in := f.input(n)
+		fs, fl, rd, _ := place(placements[0], "f", []byte(in))
+		ctxA := parsley.NewContext(fs, rd)
+		func() {
+			defer func() { recover() }()
+			parsley.Evaluate(ctxA, p)
+		}()
+		ctxB := parsley.NewContext(fs, text.NewReader(fl))
+		func() {
+			defer func() { recover() }()
+			parsley.Evaluate(ctxB, p)
+		}()
+		if ctxB.CallCount() != c1 {
+			return viol("call-count-not-deterministic", fmt.Sprintf("call count %d, but %d for the same parse through a second context on the same file set", c1, ctxB.CallCount()))
+		}
 	}
 	c2, v2, err2, pm2, capped2 := c17Count(f, p, 2*n, 16*int64(c1)+64)
 	res.Add("transitions", int64(c2))
